@@ -138,6 +138,9 @@ func (c *ChunkConn) pieces(b []byte) [][]byte {
 			if c.wrng.Chance(1, 2) {
 				n = 1 + c.wrng.Intn(12)
 			}
+			if n > len(b)-1 {
+				n = len(b) - 1
+			}
 			out = append(out, b[:n])
 			b = b[n:]
 		}
